@@ -134,7 +134,6 @@ func verifMkElem(name string, rec bool) (LessInterface, verifElem) {
 	return verifKey(k), verifElem{k, 0}
 }
 
-
 func verifPull(m *Morass, rec bool) (verifElem, error) {
 	if rec {
 		var x verifRec
@@ -227,6 +226,16 @@ func VerifC11_History() {
 			case perr != nil:
 				sawError = true
 				eof = true
+				if faults && drain == 2 && allClear {
+					// the one fault of this path was this failed read: keep draining to io.EOF
+					// (values no longer matter) and look at what is left behind
+					for q := 0; q <= n+1; q++ {
+						if _, e2 := verifPull(m, rec); e2 == io.EOF {
+							verifAssert(verifFSFiles(dir) == 0, "autoclear-leaves-no-run-files-after-a-failed-read")
+							break
+						}
+					}
+				}
 			default:
 				pulled = append(pulled, x)
 				if !faults {
